@@ -234,7 +234,7 @@ fn gen_scenario(t: &mut Tape, borrowed: bool) -> Scenario {
     let n = if via_proxy {
         1
     } else if wide {
-        65_540 + t.draw(200)
+        66_800 + t.draw(300)
     } else if scale == 15 {
         20 + t.draw(131)
     } else {
